@@ -47,6 +47,15 @@ func c05Docs(thorough bool) []*Node {
 	for _, in := range inner {
 		out = append(out, mp(str("a"), NWrapper(in)), mp(str("a"), mp(str("a"), NWrapper(in))), mp(str("a"), NSlice(TAny, NWrapper(in))))
 	}
+	// shapes for the nested re-binding quantifiers: a -> list/map of {a: list/map of maps}
+	leafMaps := []*Node{mp(str("a"), one), mp(), mp(str("c"), one)}
+	for _, l1 := range leafMaps {
+		for _, l2 := range leafMaps {
+			innerList := NSlice(TAny, l1, l2)
+			out = append(out, mp(str("a"), NSlice(TAny, mp(str("a"), innerList))), mp(str("a"), mp(str("k"), mp(str("a"), innerList))),
+				mp(str("a"), NSlice(TAny, mp(str("a"), NSlice(TAny, mp(str("a"), innerList))))))
+		}
+	}
 	out = append(out, mp(), mp(str("c"), one))
 	return out
 }
@@ -91,6 +100,16 @@ func c05Exprs(thorough bool) []any {
 				&Quant{All: all, Sel: s, Mode: BindValue, Val: "x", Body: &Match{Sel: []string{"x", "c"}, Op: OpEmpty}},
 				&Quant{All: all, Sel: s, Mode: BindBoth, Idx: "k", Val: "x", Body: &Match{Sel: []string{"x", "a", "c"}, Op: OpNe, Lit: "1"}},
 			)
+		}
+	}
+	// nested quantifiers that re-bind the outer name (aliases are rewritten through the binding stack): absent leaves
+	// below the inner alias must still follow the table / unknown value
+	for _, all := range []bool{false, true} {
+		for _, leaf := range []string{"c", "a"} {
+			inner := &Quant{All: all, Sel: []string{"x", "a"}, Mode: BindDefault, Val: "x", Body: &Match{Sel: []string{"x", leaf}, Op: OpNe, Lit: "1"}}
+			out = append(out, &Quant{All: all, Sel: []string{"a"}, Mode: BindValue, Val: "x", Body: inner})
+			inner2 := &Quant{All: !all, Sel: []string{"x", "a"}, Mode: BindValue, Val: "y", Body: &Quant{All: all, Sel: []string{"y", "a"}, Mode: BindBoth, Idx: "i", Val: "x", Body: &Match{Sel: []string{"x", leaf}, Op: OpEmpty}}}
+			out = append(out, &Quant{All: all, Sel: []string{"a"}, Mode: BindBoth, Idx: "i", Val: "x", Body: inner2})
 		}
 	}
 	return out
